@@ -45,7 +45,7 @@ RULE = (
 
 EPS32 = float(np.finfo(np.float32).eps)
 TOLF = float(os.environ.get("VERIF_C14_TOLF", "64"))  # 64 per DESIGN section 3; the variable is a calibration/debug knob only
-MAX_ELEMS = 3_000_000  # int32 elements of the worst-case index array of one call
+MAX_ELEMS = 1_000_000  # int32 elements of the worst-case index array of one call
 MAX_CELLS = 400_000  # cells of the grid
 INT32_MAX = 2**31 - 1
 
@@ -751,42 +751,82 @@ def _log_uniform(lo, hi):
     return st.floats(math.log10(lo), math.log10(hi)).map(lambda e: 10.0**e)
 
 
+def _draw_box(draw, ref_len):
+    """Random orthorhombic or reduced triclinic box (angles 60..120 deg, pulled
+    towards 90 deg until the smallest height is >= 0.45 * the shortest edge)."""
+    Ls = [ref_len * draw(st.one_of(st.sampled_from([1.0, 0.5, 2.0]), st.floats(0.3, 3.0))) for _ in range(3)]
+    if draw(st.booleans()):
+        ang = [90.0, 90.0, 90.0]
+    else:
+        ang = [draw(st.one_of(st.sampled_from([60.0, 90.0, 120.0]), st.floats(60.0, 120.0))) for _ in range(3)]
+    B = None
+    for _ in range(8):
+        B = box_from_cell(Ls[0], Ls[1], Ls[2], *ang)
+        if B is not None and box_heights(B).min() >= 0.45 * min(Ls):
+            break
+        ang = [90.0 + 0.6 * (a - 90.0) for a in ang]
+    else:
+        B = box_from_cell(Ls[0], Ls[1], Ls[2], 90.0, 90.0, 90.0)
+    return [[_r32(x) for x in row] for row in B]
+
+
+FACE_FRACS = [0.0, 0.0, 0.03, 0.97, 0.5, 0.25]
+
+
 @st.composite
 def st_base(draw, tier, periodic, fine=False):
     """Atoms, cell size, selection, input form, box."""
     thorough = tier == "thorough"
     E = draw(st.one_of(st.sampled_from([1e-3, 1.0, 10.0, 1e3]), _log_uniform(1e-3, 1e3)))
-    kind = draw(st.sampled_from(["uniform", "uniform", "clustered", "collinear", "duplicated", "lattice"]))
+    kinds = ["uniform", "uniform", "clustered", "collinear", "duplicated", "lattice"]
+    if periodic:
+        kinds += ["boxfaces", "boxfaces"]
+    kind = draw(st.sampled_from(kinds))
     n = draw(st.integers(1, 4)) if draw(_chance(8)) else draw(st.one_of(st.integers(5, 12), st.integers(5, 25), st.integers(20, 60)))
     case = {"E": E, "kind": kind, "periodic": bool(periodic)}
     lattice_cs = None
+    def triples(elem, count):
+        flat = draw(st.lists(elem, min_size=3 * count, max_size=3 * count))
+        return [flat[3 * i : 3 * i + 3] for i in range(count)]
+
     if kind == "uniform":
-        U = [[draw(u01) for _ in range(3)] for _ in range(n)]
+        U = triples(u01, n)
     elif kind == "clustered":
         k = draw(st.integers(1, 4))
         centers = [[draw(u01) for _ in range(3)] for _ in range(k)]
         spread = draw(st.sampled_from([1e-4, 1e-3, 1e-2, 0.1]))
-        U = []
-        for _ in range(n):
-            c = centers[draw(st.integers(0, k - 1))]
-            U.append([c[a] + spread * (draw(u01) - 0.5) for a in range(3)])
+        which = draw(st.lists(st.integers(0, k - 1), min_size=n, max_size=n))
+        jit = triples(u01, n)
+        U = [[centers[which[i]][a] + spread * (jit[i][a] - 0.5) for a in range(3)] for i in range(n)]
     elif kind == "collinear":
         p0 = [draw(u01) for _ in range(3)]
         dirv = draw(st.tuples(small_int, small_int, small_int).filter(lambda t: any(t)))
-        U = []
-        for _ in range(n):
-            t = draw(u01)
-            U.append([p0[a] + t * dirv[a] for a in range(3)])
+        ts = draw(st.lists(u01, min_size=n, max_size=n))
+        U = [[p0[a] + t * dirv[a] for a in range(3)] for t in ts]
     elif kind == "duplicated":
         k = draw(st.integers(1, 5))
         base = [[draw(u01) for _ in range(3)] for _ in range(k)]
-        U = [list(base[draw(st.integers(0, k - 1))]) for _ in range(n)]
+        which = draw(st.lists(st.integers(0, k - 1), min_size=n, max_size=n))
+        U = [list(base[w]) for w in which]
+    elif kind == "boxfaces":
+        # atoms close to the faces, edges and corners of the periodic box (some in neighbouring boxes)
+        B0 = _draw_box(draw, E)
+        case["box"] = B0
+        Bm = np.array(B0, dtype=np.float64)
+        U = None
+        pts = []
+        for _ in range(n):
+            f = [draw(st.sampled_from(FACE_FRACS)) + 0.04 * draw(u01) for _ in range(3)]
+            if draw(_chance(4)):
+                a = draw(st.integers(0, 2))
+                f[a] += draw(st.sampled_from([-2, -1, 1, 2]))
+            pts.append([_r32(x) for x in (np.array(f) @ Bm)])
     else:  # lattice: exact multiples of the cell size
         G = draw(st.integers(1, 8))
         mant = draw(st.sampled_from([1.0, 1.5, 3.0, 0.1, 0.7]))
         lattice_cs = _r32(E * mant / G)
         org = [draw(st.integers(-3, 3)) for _ in range(3)]
-        ints = [[draw(st.integers(0, G)) for _ in range(3)] for _ in range(n)]
+        ints = triples(st.integers(0, G), n)
         case["lattice"] = {"G": G, "org": org}
         U = None
         pts = [[_r32((org[a] + p[a]) * lattice_cs) for a in range(3)] for p in ints]
@@ -807,7 +847,7 @@ def st_base(draw, tier, periodic, fine=False):
     sel_kind = draw(st.sampled_from(["none", "none", "partial", "partial", "all_true", "all_false", "nan_unselected"]))
     sel = None
     if sel_kind == "partial" or sel_kind == "nan_unselected":
-        sel = [draw(st.booleans()) for _ in range(n)]
+        sel = draw(st.lists(st.booleans(), min_size=n, max_size=n))
         if not any(sel):
             sel[draw(st.integers(0, n - 1))] = True
         if sel_kind == "nan_unselected":
@@ -838,22 +878,16 @@ def st_base(draw, tier, periodic, fine=False):
     # box
     B = None
     want_box = periodic or draw(_chance(6))
-    if want_box:
+    if case.get("box") is not None:
+        B = case["box"]
+        case["box_f64"] = draw(st.booleans())
+    elif want_box:
         if kind == "lattice" and draw(st.booleans()):
             # faces on multiples of the cell size
             Ls = [lattice_cs * draw(st.integers(1, 10)) for _ in range(3)]
             B = box_from_cell(Ls[0], Ls[1], Ls[2], 90.0, 90.0, 90.0)
         else:
-            Ls = [ext * draw(st.one_of(st.sampled_from([1.0, 0.5, 2.0]), st.floats(0.3, 3.0))) for _ in range(3)]
-            if draw(st.booleans()):
-                ang = [90.0, 90.0, 90.0]
-            else:
-                ang = [draw(st.one_of(st.sampled_from([60.0, 90.0, 120.0]), st.floats(60.0, 120.0))) for _ in range(3)]
-            for _ in range(8):
-                B = box_from_cell(Ls[0], Ls[1], Ls[2], *ang)
-                if B is not None and box_heights(B).min() >= 0.45 * min(Ls):
-                    break
-                ang = [90.0 + 0.6 * (a - 90.0) for a in ang]
+            B = _draw_box(draw, ext)
         B = [[_r32(x) for x in row] for row in B]
         case["box"] = B
         case["box_f64"] = draw(st.booleans())
@@ -915,6 +949,10 @@ def st_queries(draw, case, tier):
     mmax = 6 if tier == "quick" else 12
     m = draw(st.one_of(st.just(1), st.integers(1, mmax)))
     kinds = ["inside", "inside", "atom", "atom", "border", "border", "outside", "outside", "far", "far"]
+    Bm = None
+    if case.get("periodic"):
+        kinds = kinds + ["boxfrac"] * 5
+        Bm = np.array(case["box"], dtype=np.float64)
     Q = []
     for _ in range(m):
         k = draw(st.sampled_from(["vfar", "nonfinite"])) if draw(_chance(16)) else draw(st.sampled_from(kinds))
@@ -961,6 +999,13 @@ def st_queries(draw, case, tier):
             q = [lo[a] + draw(st.sampled_from([-1.0, 0.0, 1.0])) * D * f for a in range(3)]
             a = draw(st.integers(0, 2))
             q[a] = lo[a] + draw(st.sampled_from([-1.0, 1.0])) * D * f
+        elif k == "boxfrac":
+            # near faces / edges / corners of the periodic box, possibly in another box
+            f = [draw(st.sampled_from(FACE_FRACS + [1.0])) + 0.04 * draw(u01) * draw(st.sampled_from([-1.0, 0.0, 1.0])) for _ in range(3)]
+            if draw(_chance(4)):
+                a = draw(st.integers(0, 2))
+                f[a] += draw(st.sampled_from([-3, -1, 1, 2]))
+            q = list(np.array(f) @ Bm)
         elif k == "vfar":
             q = [draw(st.sampled_from([-1.0, 0.0, 1.0])) * draw(st.sampled_from([1e9, 1e15, 1e30, 3e38])) for _ in range(3)]
         else:
